@@ -52,7 +52,9 @@ DIRECTED = ["", "()", "(())", "()()", "a()", "()a", "a()b", "(|)", "a||b", "||",
             "a{1}", "(){2}", "[a]()", "(()|a)*",
             # redundant groups around alternations, sets and single symbols, two and three levels deep
             "((ab|c))", "a((bc|a))c", "(([ab]c|a))+", "(((a)))", "(([ab]))", "((a|bc))", "(([ab])+)", "(((ab|c)))b", "((a)(b|c))",
-            "((ab|c)*)", "(((a|b)c|a))?"]
+            "((ab|c)*)", "(((a|b)c|a))?",
+            # a dash as the upper end of a range, followed by more of the set
+            "[ ---a]", "[$---b]", "[^ ---a]", "[----a]", "[ ----c]", "[$---]", "[ ---][a-c]"]
 # an escaped backslash in front of a letter that would otherwise be a shortcut, and escaped / plain spaces (judged on
 # strings over the characters these patterns talk about)
 DIRECTED2 = [r"\\d", r"\\s", r"\\w", r"a\\d", r"\\\d", r"\\\\d", r"(\\|a)\w", r"[\\d]", r"[\\]d", r"\ ", r"a\ b", r"a b", r"[ ]a", r"\d\ ",
